@@ -1,4 +1,4 @@
 (* Extraction of the C08 model (concrete machine, reference machine, legality) for the correspondence run. *)
 From Coq Require Import Extraction ExtrOcamlBasic ZArith List.
 From ScV Require Import Base.CInt Gen.Array C08.ArrayModel.
-Extraction "c08_model.ml" c_step0 s_step0 legal_step0 cobs sobs c_content c_init s_init lget.
+Extraction "c08_model.ml" c_step0 s_step0 legal_step0 cobs sobs c_content c_init s_init lget sget s_cnt s_esz s_rd.
